@@ -85,6 +85,10 @@ def _eval_key(k, x, signed):
             return ~a[0]
         if op == 'neg' and len(a) == 1:
             return -a[0]
+        if op.startswith('as:') and len(a) == 1:
+            bits, sg = int(op[3:-1]), op[-1] == 's'
+            v = a[0] & ((1 << bits) - 1)
+            return v - (1 << bits) if (sg and v >> (bits - 1)) else v
         if op.startswith('cast:') and len(a) == 1:
             from ..interp import wrap_int, int_type
             if int_type(op[5:]) is None:
@@ -215,8 +219,8 @@ def r111(P, u, rep):
                                 got = L.type_sig(it, ctx.tok.fields.get('ty', 0))
                                 if got != want and cur[0]:
                                     cur[0] = False
-                                    cur[1] = 'the constant `%s` with a value in [%#x, %#x] gets type %s; C11 6.4.4.1p5 requires %s (sizeof, _Generic and the value after truncation differ)' % (
-                                        text, lo, hi - 1, TYN.get(got, got), TYN[want])
+                                    cur[1] = 'a %s constant with %s (spelled like `%s`) whose value lies in [%#x, %#x] gets type %s; C11 6.4.4.1p5 requires %s (sizeof, _Generic and the value after truncation differ)' % (
+                                        {'dec': 'decimal', 'oct': 'octal', 'hex': 'hexadecimal', 'bin': 'binary'}[bname], ('suffix `%s`' % sfx) if sfx else 'no suffix', text, lo, hi - 1, TYN.get(got, got), TYN[want])
                             if n == 0 and cur[0]:
                                 cur[0] = False
                                 cur[1] = 'no path of the ladder covers `%s` with a value in [%#x, %#x]' % (text, lo, hi - 1)
@@ -279,6 +283,8 @@ def _escape(P, u, text):
         box['p'] = L.cstring(text)
         return [_Ref(VarPlace(box, 'np')), box['p']]
     ctx, out = L.run1(it, 'read_escaped_char', mk)
+    if out[0] == 'crash':
+        raise AnalysisBroken('read_escaped_char: %s at %s' % out[1:])
     if out[0] != 'ret':
         return ('error',)
     np_ = box['np']
@@ -361,6 +367,8 @@ def _decode(P, uu, bs):
     box = {'np': 0}
     src = L.ptr(L.mem(1, [L.schar(b) for b in bs] + [L.schar(0x5A), 0, 0, 0, 0]))
     ctx, out = L.run1(it, 'decode_utf8', lambda ctx: [_Ref(VarPlace(box, 'np')), src])
+    if out[0] == 'crash':
+        raise AnalysisBroken('decode_utf8: %s at %s' % out[1:])
     if out[0] != 'ret':
         return ('error',)
     d = box['np'].diff(src) if isinstance(box['np'], _Ref) else None
@@ -425,9 +433,11 @@ class Lexed:
 
     def __init__(self, it, ctx, out):
         self.it, self.ctx, self.out = it, ctx, out
-        self.error = out[0] != 'ret'
-        self.toks = [] if self.error else L.tokens(it, out[1])
-        self.head = None if self.error else out[1]
+        self.error = out[0] == 'noreturn'        # a diagnostic (error/error_at/error_tok)
+        self.crash = out[0] == 'crash'
+        self.failed = out[0] != 'ret'
+        self.toks = [] if self.failed else L.tokens(it, out[1])
+        self.head = None if self.failed else out[1]
 
     def kinds(self, u):
         names = {v: k for k, v in u.enums.items() if k.startswith('TK_')}
@@ -437,6 +447,8 @@ class Lexed:
         return [L.tok_text(t) for t in self.toks]
 
     def describe(self, u):
+        if self.crash:
+            return 'a %s inside the compiler at %s' % (self.out[1], self.out[2])
         if self.error:
             return 'diagnostic "%s"' % (self.out[2][1] if len(self.out[2]) > 1 else self.out[1],)
         return ' '.join('%s(%s)' % (k[3:], (x or b'').decode('utf-8', 'replace')) for k, x in zip(self.kinds(u), self.texts()))
@@ -486,6 +498,7 @@ def utf16_oracle(c):
 
 
 CHAR, USHORT, UINT_T, INT_T = ('TY_CHAR', 1, 0), ('TY_SHORT', 2, 1), ('TY_INT', 4, 1), ('TY_INT', 4, 0)
+CTYNAME = {CHAR: 'char', USHORT: 'unsigned short', UINT_T: 'unsigned int', INT_T: 'int'}
 TYNAME = {CHAR: 'char', USHORT: 'unsigned short (char16_t)', UINT_T: 'unsigned int (char32_t)', INT_T: 'int (wchar_t)'}
 
 
@@ -497,7 +510,7 @@ def check_string(P, u, src, base, units, via_file=False):
     """lex src; it must be exactly one string literal token of element type `base` holding `units` + 0.
     returns (ok, description of what happened)"""
     lx = lex(P, u, src, via_file)
-    if lx.error:
+    if lx.failed:
         return False, lx.describe(u)
     if lx.kinds(u) != ['TK_STR', 'TK_EOF']:
         return False, 'the token sequence ' + lx.describe(u)
@@ -550,7 +563,8 @@ def r116(P, u, rep):
     strs = [('none', '"a\u00e9"', CHAR, [0x61, 0xC3, 0xA9]), ('u8', 'u8"a\u00e9"', CHAR, [0x61, 0xC3, 0xA9]),
             ('u', 'u"a\u00e9"', USHORT, [0x61, 0xE9]), ('U', 'U"a\U0001F363"', UINT_T, [0x61, sushi]), ('L', 'L"a\U0001F363"', INT_T, [0x61, sushi]),
             ('none-escapes', '"\\x80\\377\\n"', CHAR, [0x80, 0xFF, 10]), ('U-escape', 'U"\\x1F363"', UINT_T, [sushi]), ('L-escape', 'L"\\n"', INT_T, [10]),
-            ('none-4-byte', '"\U0001F363"', CHAR, [0xF0, 0x9F, 0x8D, 0xA3])]
+            ('none-4-byte', '"\U0001F363"', CHAR, [0xF0, 0x9F, 0x8D, 0xA3]), ('none-escaped-quote', '"a\\"b\\\\"', CHAR, [0x61, 0x22, 0x62, 0x5C]),
+            ('u-escaped-quote', 'u"\\"\\\\"', USHORT, [0x22, 0x5C])]
     for name, src, base, units in strs:
         good, what = check_string(P, u, src + '\n', base, units)
         rep.ob('R11.6', '%s:%s:string-prefix-%s' % (TU, fn, name), good,
@@ -562,20 +576,20 @@ def r116(P, u, rep):
     for name, src, ty, val in chars:
         lx = lex(P, u, src + '\n')
         ok, what = True, ''
-        if lx.error or lx.kinds(u) != ['TK_NUM', 'TK_EOF']:
+        if lx.failed or lx.kinds(u) != ['TK_NUM', 'TK_EOF']:
             ok, what = False, lx.describe(u)
         else:
             t = lx.toks[0]
             sig = L.type_sig(lx.it, t.fields.get('ty', 0))
             v = t.fields.get('val')
             if sig != ty or v != val or L.tok_text(t) != src.encode('utf-8'):
-                ok, what = False, 'a constant of type %s with value %r spelled %r' % (TYNAME.get(sig, sig), v, L.tok_text(t))
+                ok, what = False, 'a constant of type %s with value %r spelled %r' % (CTYNAME.get(sig, sig), v, L.tok_text(t))
         rep.ob('R11.6', '%s:%s:char-prefix-%s' % (TU, fn, name), ok,
-               'the character constant %s becomes %s; C11 6.4.4.4 requires type %s, value %d' % (src, what, TYNAME[ty], val), where=where)
+               'the character constant %s becomes %s; C11 6.4.4.4 requires type %s, value %d' % (src, what, CTYNAME[ty], val), where=where)
     # prefixes that are not followed by a quote stay identifiers
     for src, want in (('u8 u U L u8x\n', ['TK_IDENT'] * 5 + ['TK_EOF']), ('ua"b"\n', ['TK_IDENT', 'TK_STR', 'TK_EOF']), ('LL\'c\'\n', ['TK_IDENT', 'TK_NUM', 'TK_EOF'])):
         lx = lex(P, u, src)
-        rep.ob('R11.6', '%s:%s:prefix-letters-alone-are-identifiers' % (TU, fn), (not lx.error) and lx.kinds(u) == want,
+        rep.ob('R11.6', '%s:%s:prefix-letters-alone-are-identifiers' % (TU, fn), (not lx.failed) and lx.kinds(u) == want,
                '`%s` is tokenized as %s' % (src.strip(), lx.describe(u)), where=where)
     for src in ('"abc\n', "'a\n", 'u"abc\n', '"abc\\"\n'):
         lx = lex(P, u, src)
@@ -601,6 +615,8 @@ def r117(P, u, rep):
         ('ucn-then-tokens', b'"\\u00e9\\U0001F363"\n', CHAR, [0xC3, 0xA9, 0xF0, 0x9F, 0x8D, 0xA3], '\\u and \\U names are replaced by the UTF-8 form of the named character before literals are read'),
         ('ucn-in-utf16', b'u"\\U00010000\\uFFFD"\n', USHORT, [0xD800, 0xDC00, 0xFFFD], 'universal character names reach the UTF-16 reader as characters'),
         ('escaped-backslash-before-u', b'"\\\\u0041"\n', CHAR, [0x5C, 0x75, 0x30, 0x30, 0x34, 0x31], 'an escaped backslash followed by u is not a universal character name'),
+        ('cr-ends-line-comment', b'// x\r"a"\r\n', CHAR, [0x61], 'a lone CR is a line end: it terminates a // comment'),
+        ('crlf-ends-line-comment', b'// x\r\n"a"\r\n', CHAR, [0x61], 'CR LF is a line end: it terminates a // comment'),
         ('crlf-inside-file', b'"a"\r\n\r\n', CHAR, [0x61], 'CR LF line ends do not leave CR characters'),
     ]
     for name, data, base, units, why in cases:
@@ -609,7 +625,7 @@ def r117(P, u, rep):
                'the source text %r is read as %s; expected one literal with elements %s: %s' % (data, what, fmt_units(units + [0]), why), where=where)
     lx = lex(P, u, BOM + b'in\\\r\nt \\u00e9x\r', via_file=True)
     rep.ob('R11.7', '%s:%s:identifiers-after-normalisation' % (TU, fn),
-           (not lx.error) and lx.kinds(u) == ['TK_IDENT', 'TK_IDENT', 'TK_EOF'] and lx.texts()[:2] == [b'int', b'\xc3\xa9x'],
+           (not lx.failed) and lx.kinds(u) == ['TK_IDENT', 'TK_IDENT', 'TK_EOF'] and lx.texts()[:2] == [b'int', b'\xc3\xa9x'],
            'BOM + `in\\<CR LF>t \\u00e9x<CR>` is tokenized as %s; expected the identifiers `int` and `\u00e9x`' % lx.describe(u), where=where)
 
 
@@ -618,8 +634,8 @@ def join(P, u, pu, text):
     """tokenize text, then run join_adjacent_string_literals on the token list.
     returns (lexed, ctx, outcome)"""
     lx = lex(P, u, text)
-    if lx.error:
-        raise AnalysisBroken('tokenize rejects the concatenation sample %r' % text)
+    if lx.failed:
+        raise AnalysisBroken('tokenize rejects the concatenation sample %r (%s)' % (text, lx.describe(u)))
     it2 = L.CInterp(P, pu, {'models': L.make_models()})
     ctx2, out2 = L.run1(it2, 'join_adjacent_string_literals', lambda ctx: [lx.head])
     lx2 = Lexed(it2, ctx2, ('ret', lx.head) if out2[0] == 'ret' else out2)
@@ -656,18 +672,18 @@ def r118(P, u, rep):
         lx, ctx, out = join(P, u, pu, src + ' ;\n')
         ok, what = True, ''
         if out[0] != 'ret':
-            ok, what = False, 'rejected with ' + lx.describe(u)
+            ok, what = False, 'is rejected with ' + lx.describe(u)
         elif lx.kinds(u) != ['TK_STR', 'TK_PUNCT', 'TK_EOF']:
-            ok, what = False, 'the token sequence ' + lx.describe(u)
+            ok, what = False, 'becomes the token sequence ' + lx.describe(u)
         else:
             st = str_token(lx, lx.toks[0])
             bad = [e for e in ctx.events if e[0] in ('overflow', 'overread')]
             if st is None or st[0] != base or st[1] != units + [0]:
-                ok, what = False, ('an array of %s with %s element(s) %s' % (TYNAME.get(st[0], st[0]), st[2][3], fmt_units(st[1]))) if st else 'a token without array type'
+                ok, what = False, ('is joined into an array of %s with %s element(s) %s' % (TYNAME.get(st[0], st[0]), st[2][3], fmt_units(st[1]))) if st else 'becomes a token without array type'
             elif bad:
-                ok, what = False, 'the right elements, but copying runs %d byte(s) past a buffer' % bad[0][1]
+                ok, what = False, 'gets the right elements, but the copy runs %d byte(s) past a buffer' % bad[0][1]
         rep.ob('R11.8', '%s:%s:%s' % (PU, fn, name), ok,
-               '%s is joined into %s; C11 6.4.5p5 requires one array of %s with elements %s' % (src, what, TYNAME[base], fmt_units(units + [0])), where=where)
+               '%s %s; C11 6.4.5p5 requires one array of %s with elements %s' % (src, what, TYNAME[base], fmt_units(units + [0])), where=where)
     # two runs separated by another token are joined separately, single literals untouched
     lx, ctx, out = join(P, u, pu, '"a" "b" , u"c" "d" , "e" ;\n')
     ok = out[0] == 'ret' and lx.kinds(u) == ['TK_STR', 'TK_PUNCT', 'TK_STR', 'TK_PUNCT', 'TK_STR', 'TK_PUNCT', 'TK_EOF']
@@ -730,7 +746,7 @@ def r119(P, u, rep):
         for smp in samples:
             n = ppnumber_len(smp)
             lx = lex(P, u, smp + '\n')
-            first = None if lx.error or not lx.toks else lx.toks[0]
+            first = None if lx.failed or not lx.toks else lx.toks[0]
             got = None
             if first is not None:
                 got = (lx.kinds(u)[0], L.tok_text(first))
@@ -939,12 +955,12 @@ def run(P, rep, tier):
                        'Not decided: strtoul/strtold themselves, code points other than the sampled ones.')
     rep.assumptions += ['libc functions behave as ISO C 7.4/7.22/7.24 specify (python models)', 'x86-64: char is signed, LP64',
                         'UTF-8/UTF-16 oracles are python\'s codecs (RFC 3629 / RFC 2781)']
-    r111(P, u, rep)
-    r113(P, u, rep)
-    r114(P, rep)
-    r115(P, u, rep)
-    r116(P, u, rep)
-    r117(P, u, rep)
-    r118(P, u, rep)
-    r119(P, u, rep)
-    r1110(P, u, rep)
+    _need(u, 'tokenize', 'tokenize_file', 'convert_pp_int', 'convert_pp_number', 'read_escaped_char', 'read_utf16_string_literal')
+    for rule, f in (('R11.1', lambda: r111(P, u, rep)), ('R11.3', lambda: r113(P, u, rep)), ('R11.4', lambda: r114(P, rep)),
+                    ('R11.5', lambda: r115(P, u, rep)), ('R11.6', lambda: r116(P, u, rep)), ('R11.7', lambda: r117(P, u, rep)),
+                    ('R11.8', lambda: r118(P, u, rep)), ('R11.9', lambda: r119(P, u, rep)), ('R11.10', lambda: r1110(P, u, rep))):
+        try:
+            f()
+        except AnalysisBroken as e:
+            # one rule that cannot be interpreted must not hide the verdicts of the others
+            rep.undecided(rule, 'analysis', 'the rule could not be evaluated: %s' % e)
